@@ -17,14 +17,14 @@ FUNCTIONS = ["FlodymArray.cast_values_to", "FlodymArray.sum_values_to", "FlodymA
              "LifetimeModel.cast_any_to_np_array", "DataFrameToFlodymDataConverter._sort_columns", "FlodymArray.to_df", "flodym_array_stack", "FlodymArray.split"]
 ASSUMPTIONS = ["scipy kernels uninterpreted (lifetime-parameter harness)", "DataFrame round trip: cell values pairwise different", "DataFrame round trip: dimensions with string items (value/item confusion is C11's subject)"]
 OUTSIDE = ["more than 4 dimensions", "lengths above 3"]
-VARIANTS = 'letter-headed frames; sums and shares over several dimensions named against the storage order'
+VARIANTS = 'df_shared_items: two dimensions over one item set, every frame form into every storage order; letter-headed frames; sums and shares over several dimensions named against the storage order'
 BOUNDS = {"quick": dict(universe="abc (+d for unary ops)", lengths="(2,2,2,2) and (2,3,2,1)", permutations="all (<= 24 per array, all pairs for binary operations on <= 3 dims)"),
           "thorough": dict(universe="abcd", lengths="(2,2,2,2) (2,3,2,1) (3,2,3,2)", permutations="all; binary operations with up to 4 and 3 dims")}
 for _t in BOUNDS.values():
     _t["variants_beyond_the_base_enumeration"] = VARIANTS
 OPTS = {"quick": dict(shadow_every=30, max_paths=50), "thorough": dict(shadow_every=100, max_paths=50)}
 BINOPS = ["add", "sub", "mul", "div", "min", "max", "pow"]
-UNOPS = ["sum_to", "sum_over", "cast_to", "shares", "cumsum", "read", "split", "neg_abs_sign_scalar"]
+UNOPS = ["sum_to", "sum_over", "cast_to", "shares", "cumsum", "read", "split", "neg_abs_sign_scalar", "read_derived"]
 
 
 def _lenpats(tier):
@@ -62,6 +62,11 @@ def configs(tier, seed):
         for sx in subsets("abc", min_size=2):
             out.append(dict(h="df", op="df", key=f"df/x={sx}/{lk}", sx=sx, lens=lens))
             out.append(dict(h="stack", op="stack", key=f"stack/x={sx}/{lk}", sx=sx, lens=lens))
+    # two dimensions with one and the same item set (origin / destination): a frame in which each is identified by a name,
+    # a letter or the header of the wide columns imports alike into every storage order of the target
+    for n in (2, 3):
+        for third in (False, True):
+            out.append(dict(h="df_shared_items", op="dfshared", key=f"df_shared_items/n={n}" + ("/third_dimension" if third else ""), n=n, third=third, lens={}))
     for lt in ["NormalLifetime", "WeibullLifetime", "FixedLifetime"]:
         for ps in ["t", "r", "p", "tr", "tp", "rp", "trp"]:
             out.append(dict(h="lifetime_prm", op=lt, key=f"lifetime_prm/{lt}/prm={ps}", lt=lt, ps=ps, lens={}))
@@ -182,6 +187,21 @@ def run(cfg, w):
                     sub1 = Dimension(name="SubInner", letter="v", items=dims[sx[1]].items[::-1][: max(1, lens[sx[1]] - 1)])
                     outs["inner_subset_then_item"] = (a[{sx[1]: sub1, sx[-1]: dims[sx[-1]].items[0]}], ["v" if l == sx[1] else l for l in order if l != sx[-1]])
                 outs["ellipsis"] = (a[...], list(order))
+            elif op == "read_derived":
+                # the source is read by key first, then an array whose dimensions sit at other positions is derived from it
+                # (a requested order, a sum, arithmetic with an operand lacking a dimension), and that one is read by key
+                l0 = sx[0]
+                a[{l0: dims[l0].items[0]}]
+                a[dims[sx[-1]].items[-1]]
+                for R in itertools.permutations(sx, max(1, len(sx) - 1)):
+                    y = a.sum_to(R)
+                    for l in (R[0], R[-1]):
+                        outs[f"sum_to_{''.join(R)}_read_{l}"] = (y[{l: dims[l].items[-1]}], [m_ for m_ in R if m_ != l])
+                y = a.sum_over((sx[0],))
+                if len(sx) >= 2:
+                    outs["sum_over_first_read_last"] = (y[{sx[-1]: dims[sx[-1]].items[0]}], [m_ for m_ in order if m_ not in (sx[0], sx[-1])])
+                    z = a - a.sum_to(tuple(sx[1:]))
+                    outs["minus_partial_total_read"] = (z[{sx[1]: dims[sx[1]].items[-1]}], [m_ for m_ in order if m_ in sx[1:] and m_ != sx[1]])
             elif op == "split":
                 parts = a.split(sx[0])
                 for item, p in parts.items():
@@ -240,11 +260,55 @@ def run(cfg, w):
                     # the same frame with its dimensions headed by letter instead of by name
                     n2l = {NAMES[l]: l for l in sx}
                     dfl = df.rename_axis(index=lambda n: n2l.get(n, n)) if index else df.rename(columns=n2l)
+                    if d2c is None and len(px) >= 2:
+                        # long frames in which ONE dimension is recognisable by its items only (an unnamed text index level, an
+                        # "Unnamed: 0" column) and stands before the named ones / after them
+                        for anon in (px[0], px[-1]):
+                            for place in ("first", "last"):
+                                long = a.to_df(index=False)
+                                cols = [c for c in long.columns if c not in (NAMES[anon], "value")]
+                                cols = ([NAMES[anon]] + cols if place == "first" else cols + [NAMES[anon]]) + ["value"]
+                                dfa = long[cols].rename(columns={NAMES[anon]: "Unnamed: 0"})
+                                if index:
+                                    dfa = dfa.set_index([c for c in dfa.columns if c != "value"])
+                                    dfa.index = dfa.index.set_names([None if n_ == "Unnamed: 0" else n_ for n_ in dfa.index.names])
+                                for qx in itertools.permutations(sx):
+                                    back = FlodymArray.from_df(dims=make_dimset(qx, lens, dims), df=dfa.copy())
+                                    _cmp(w, f"{''.join(px)}->df(index={int(index)},items_only={anon},{place})->{''.join(qx)}", ref, back, list(qx))
                     for qx in itertools.permutations(sx):
                         back = FlodymArray.from_df(dims=make_dimset(qx, lens, dims), df=df)
                         _cmp(w, f"{''.join(px)}->df(index={int(index)},cols={d2c})->{''.join(qx)}", ref, back, list(qx))
                         back = FlodymArray.from_df(dims=make_dimset(qx, lens, dims), df=dfl)
                         _cmp(w, f"{''.join(px)}->df(index={int(index)},cols={d2c},letters)->{''.join(qx)}", ref, back, list(qx))
+        return
+    if h == "df_shared_items":
+        n = cfg["n"]
+        items = ["A", "B", "C"][:n]
+        D = {"o": Dimension(name="Origin", letter="o", items=list(items)), "d": Dimension(name="Destination", letter="d", items=list(items))}
+        if cfg["third"]:
+            D["e"] = Dimension(name="Element", letter="e", items=["Fe", "Cu"])
+        canon = list(D)
+        X = w.arr("x", tuple(len(D[l].items) for l in canon))
+        w.assume_distinct(X)
+        ref = FlodymArray(dims=DimensionSet(dim_list=[D[l] for l in canon]), values=X.copy())
+        for wide in (None, "o", "d"):
+            for index in (True, False):
+                for head in ("names", "letters"):
+                    df = ref.to_df(index=index, dim_to_columns=D[wide].name if wide else None)
+                    if head == "letters":
+                        n2l = {D[l].name: l for l in canon}
+                        df = df.rename_axis(index=lambda k: n2l.get(k, k)) if index else df.rename(columns=n2l)
+                    outcomes = {}
+                    for qx in itertools.permutations(canon):
+                        tag = f"wide={wide}/index={int(index)}/{head}->{''.join(qx)}"
+                        try:
+                            back = FlodymArray.from_df(dims=DimensionSet(dim_list=[D[l] for l in qx]), df=df.copy())
+                        except Exception as e:
+                            outcomes["".join(qx)] = f"{type(e).__name__}"
+                            continue
+                        outcomes["".join(qx)] = "imported"
+                        _cmp(w, tag, ref, back, list(qx))
+                    w.ob(f"wide={wide}/index={int(index)}/{head}:same_outcome_for_every_storage_order", len(set(outcomes.values())) == 1, info=str(outcomes))
         return
     if h == "stack":
         sx = cfg["sx"]
